@@ -1,5 +1,5 @@
 import BreezyVerif.Model.C43
-import BreezyVerif.Lemmas.C43B
+import BreezyVerif.Lemmas.C43C
 /-!
 C43 — theorems.
 -/
@@ -26,87 +26,141 @@ theorem rename_exec_independent (ms : List (String × String)) (h : Independent 
       ∀ x, kget kids' x = movesSpec (kget kids) ms x :=
   seqRename_spec ms h kids hsrc hdst
 
-/-- **The staged rename plan reaches the tree** (part): for every remote
-directory `kids` (entries of any kind, directories with arbitrary content) and
-every set `rs` of renames `(old name, new name)` of top-level entries — swaps,
-cycles and chains included: a new name may be the old name of another rename —
-the incremental upload of a delta consisting of these renames succeeds, every
-new name holds exactly what its old name held, every old name that is not also
-a new name is gone, and every other entry is untouched.
+/-- the order in which the renames are staged -/
+def stagingOrder (c : Cfg) (rs : List (String × String)) : List (String × String) :=
+  match c.renames with
+  | .asFound => rs
+  | .childrenFirst => rs.reverse
+
+/-- **The staged rename plan reaches the tree** (part): for BOTH rename
+disciplines (as found: delta order; children first: reverse delta order,
+finished in the order of the new paths — what the code does since the fix),
+every remote directory `kids` (entries of any kind, directories with arbitrary
+content) and every set `rs` of renames `(old name, new name)` of top-level
+entries — swaps, cycles and chains included: a new name may be the old name of
+another rename — the incremental upload of a delta consisting of these renames
+succeeds, every new name holds exactly what its old name held, every old name
+that is not also a new name is gone, and every other entry is untouched.
 
 Hypotheses (all decidable on concrete data): the temporary names are distinct
 from each other and from all old/new names (`Independent` of the two rounds),
 absent from the remote; the old names exist; a new name is free or vacated.
 
 Partial: renames of entries below the top level, and deltas that mix renames
-with other changes, are covered by the correspondence check only (and fail for
-the families of the witnesses below). -/
-theorem upload_renames_reach_tree_partial (c : Cfg) (hc : c.renames = .asFound) (t : Tree) (kids : Kids)
-    (rs : List (String × String))
-    (hst : Independent (stageMoves rs 0)) (hfi : Independent (finishMoves rs 0))
+with other changes, are covered by the correspondence check only (the nested
+shapes by `children_first_fixes_witnesses`). -/
+theorem reach_core (c : Cfg) (t : Tree) (kids : Kids) (rs rs' : List (String × String)) (L : List (Nat × Path))
+    (hmem : ∀ r, r ∈ rs' ↔ r ∈ rs) (hLperm : L.Perm (pendOf rs' 0))
+    (hup : ∀ kS, seqRename (.dir kids) (stageMoves rs' 0) = (.dir kS, none) →
+      uploadInc c [] t { renamed := toRenamed rs } (.dir kids) = finishRen (.dir kS) L)
+    (hst : Independent (stageMoves rs' 0)) (hfi : Independent (finishMoves rs' 0))
     (hsrc : ∀ r ∈ rs, kget kids r.1 ≠ none)
-    (hstamp : ∀ m ∈ stageMoves rs 0, kget kids m.2 = none)
+    (hstamp : ∀ m ∈ stageMoves rs' 0, kget kids m.2 = none)
     (hnew : ∀ r ∈ rs, kget kids r.2 = none ∨ r.2 ∈ rs.map (·.1)) :
     ∃ kids', uploadInc c [] t { renamed := toRenamed rs } (.dir kids) = (.dir kids', none)
       ∧ (∀ r ∈ rs, kget kids' r.2 = kget kids r.1)
       ∧ (∀ x, x ∉ rs.map (·.2) → kget kids' x = if x ∈ rs.map (·.1) then none else kget kids x) := by
+  have hmem1 : ∀ x, x ∈ rs'.map (·.1) ↔ x ∈ rs.map (·.1) := by
+    intro x; simp only [List.mem_map]; constructor <;> (rintro ⟨r, hr, he⟩; exact ⟨r, by first | exact (hmem r).mp hr | exact (hmem r).mpr hr, he⟩)
+  have hmem2 : ∀ x, x ∈ rs'.map (·.2) ↔ x ∈ rs.map (·.2) := by
+    intro x; simp only [List.mem_map]; constructor <;> (rintro ⟨r, hr, he⟩; exact ⟨r, by first | exact (hmem r).mp hr | exact (hmem r).mpr hr, he⟩)
   -- round 1: staging
-  have hsrc1 : ∀ m ∈ stageMoves rs 0, kget kids m.1 ≠ none := by
+  have hsrc1 : ∀ m ∈ stageMoves rs' 0, kget kids m.1 ≠ none := by
     intro m hm
-    have : m.1 ∈ (stageMoves rs 0).map (·.1) := List.mem_map.mpr ⟨m, hm, rfl⟩
+    have : m.1 ∈ (stageMoves rs' 0).map (·.1) := List.mem_map.mpr ⟨m, hm, rfl⟩
     rw [stageMoves_srcs] at this
     obtain ⟨r, hr, he⟩ := List.mem_map.mp this
     rw [← he]
-    exact hsrc r hr
-  obtain ⟨kS, hrunS, hS⟩ := seqRename_spec (stageMoves rs 0) hst kids hsrc1 hstamp
-  -- round 2: finishing
-  have hsrc2 : ∀ m ∈ finishMoves rs 0, kget kS m.1 ≠ none := by
+    exact hsrc r ((hmem r).mp hr)
+  obtain ⟨kS, hrunS, hS⟩ := seqRename_spec (stageMoves rs' 0) hst kids hsrc1 hstamp
+  -- round 2: finishing, in the order the discipline prescribes
+  have hLtop : TopLevel L := fun p hp => topLevel_pendOf rs' 0 p (hLperm.mem_iff.mp hp)
+  have hperm : (L.map pendMove).Perm (finishMoves rs' 0) := by
+    rw [← pendMove_pendOf]; exact hLperm.map _
+  have hfi' : Independent (L.map pendMove) := Independent.perm hperm.symm hfi
+  have hsrcs : ∀ x, x ∈ (L.map pendMove).map (·.1) ↔ x ∈ (stageMoves rs' 0).map (·.2) := by
+    intro x; rw [← finishMoves_srcs]; exact (hperm.map _).mem_iff
+  have hdsts : ∀ x, x ∈ (L.map pendMove).map (·.2) ↔ x ∈ rs.map (·.2) := by
+    intro x; rw [← hmem2, ← finishMoves_dsts rs' 0]; exact (hperm.map _).mem_iff
+  have hsrc2 : ∀ m ∈ L.map pendMove, kget kS m.1 ≠ none := by
     intro m hm
-    have : m.1 ∈ (finishMoves rs 0).map (·.1) := List.mem_map.mpr ⟨m, hm, rfl⟩
-    rw [finishMoves_srcs] at this
+    have : m.1 ∈ (stageMoves rs' 0).map (·.2) := (hsrcs m.1).mp (List.mem_map.mpr ⟨m, hm, rfl⟩)
     obtain ⟨m', hm', he⟩ := List.mem_map.mp this
     rw [hS, ← he, movesSpec_dst _ _ hst m'.1 m'.2 hm']
     exact hsrc1 m' hm'
-  have hnostamp : ∀ x ∈ rs.map (·.2), x ∉ (stageMoves rs 0).map (·.2) := by
+  have hnostamp : ∀ x ∈ rs.map (·.2), x ∉ (stageMoves rs' 0).map (·.2) := by
     intro x hx hx2
-    rw [← finishMoves_srcs] at hx2
-    rw [← finishMoves_dsts rs 0] at hx
-    exact hfi.2.2 x hx2 hx
+    exact hfi'.2.2 x ((hsrcs x).mpr hx2) ((hdsts x).mpr hx)
   have hS_new : ∀ x ∈ rs.map (·.2), kget kS x = none := by
     intro x hx
     rw [hS, movesSpec_not_dst _ _ _ (hnostamp x hx), stageMoves_srcs]
     obtain ⟨r, hr, he⟩ := List.mem_map.mp hx
     rcases hnew r hr with h | h
     · rw [← he]; simp [h]
-    · rw [← he]; simp [h]
-  have hdst2 : ∀ m ∈ finishMoves rs 0, kget kS m.2 = none := by
+    · rw [← he]; simp [(hmem1 r.2).mpr h]
+  have hdst2 : ∀ m ∈ L.map pendMove, kget kS m.2 = none := by
     intro m hm
-    apply hS_new
-    rw [← finishMoves_dsts rs 0]
-    exact List.mem_map.mpr ⟨m, hm, rfl⟩
-  obtain ⟨kF, hrunF, hF⟩ := seqRename_spec (finishMoves rs 0) hfi kS hsrc2 hdst2
+    exact hS_new _ ((hdsts m.2).mp (List.mem_map.mpr ⟨m, hm, rfl⟩))
+  obtain ⟨kF, hrunF, hF⟩ := seqRename_spec (L.map pendMove) hfi' kS hsrc2 hdst2
   refine ⟨kF, ?_, ?_, ?_⟩
-  · unfold uploadInc planInc
-    simp only [hc, List.filter_nil, List.map_nil, List.flatMap_nil, List.nil_append, List.append_nil]
-    rw [run_append, run_stage c t rs 0 { root := .dir kids } (.dir kS) hrunS]
-    simp only [run, exec, hc, List.nil_append, finishRen_eq, hrunF, List.reverse_nil, finishDel]
+  · rw [hup kS hrunS, finishRen_eq_moves _ _ hLtop, hrunF]
   · intro r hr
-    obtain ⟨s, h1, h2⟩ := via_stamp rs 0 r hr
-    rw [hF, movesSpec_dst _ _ hfi s r.2 h2, hS, movesSpec_dst _ _ hst r.1 s h1]
+    obtain ⟨s, h1, h2⟩ := via_stamp rs' 0 r ((hmem r).mpr hr)
+    rw [hF, movesSpec_dst _ _ hfi' s r.2 (hperm.mem_iff.mpr h2), hS, movesSpec_dst _ _ hst r.1 s h1]
   · intro x hx
-    have hx' : x ∉ (finishMoves rs 0).map (·.2) := by rw [finishMoves_dsts]; exact hx
-    rw [hF, movesSpec_not_dst _ _ _ hx', finishMoves_srcs]
-    by_cases hs : x ∈ (stageMoves rs 0).map (·.2)
+    have hx' : x ∉ (L.map pendMove).map (·.2) := fun h => hx ((hdsts x).mp h)
+    rw [hF, movesSpec_not_dst _ _ _ hx']
+    by_cases hs : x ∈ (stageMoves rs' 0).map (·.2)
     · -- a temporary name: gone afterwards, absent before, and never an old name
       obtain ⟨m, hm, he⟩ := List.mem_map.mp hs
       have h0 : kget kids x = none := by rw [← he]; exact hstamp m hm
-      simp [hs, h0]
-    · simp only [hs, if_false]
+      rw [if_pos ((hsrcs x).mpr hs)]
+      simp [h0]
+    · have hs' : x ∉ (L.map pendMove).map (·.1) := fun h => hs ((hsrcs x).mp h)
+      rw [if_neg hs']
       rw [hS, movesSpec_not_dst _ _ _ hs, stageMoves_srcs]
+      by_cases ho : x ∈ rs.map (·.1)
+      · simp [ho, (hmem1 x).mpr ho]
+      · have : x ∉ rs'.map (·.1) := fun h => ho ((hmem1 x).mp h)
+        simp [ho, this]
+
+
+theorem upload_renames_reach_tree_partial (c : Cfg) (t : Tree) (kids : Kids)
+    (rs : List (String × String))
+    (hst : Independent (stageMoves (stagingOrder c rs) 0)) (hfi : Independent (finishMoves (stagingOrder c rs) 0))
+    (hsrc : ∀ r ∈ rs, kget kids r.1 ≠ none)
+    (hstamp : ∀ m ∈ stageMoves (stagingOrder c rs) 0, kget kids m.2 = none)
+    (hnew : ∀ r ∈ rs, kget kids r.2 = none ∨ r.2 ∈ rs.map (·.1)) :
+    ∃ kids', uploadInc c [] t { renamed := toRenamed rs } (.dir kids) = (.dir kids', none)
+      ∧ (∀ r ∈ rs, kget kids' r.2 = kget kids r.1)
+      ∧ (∀ x, x ∉ rs.map (·.2) → kget kids' x = if x ∈ rs.map (·.1) then none else kget kids x) := by
+  obtain ⟨ren, rob⟩ := c
+  cases ren
+  · -- as found: delta order, finished in the same order
+    refine reach_core _ t kids rs rs (pendOf rs 0) (fun _ => Iff.rfl) (List.Perm.refl _) ?_ hst hfi hsrc hstamp hnew
+    intro kS h
+    unfold uploadInc planInc
+    simp only [List.filter_nil, List.map_nil, List.flatMap_nil, List.nil_append, List.append_nil]
+    rw [run_append, run_stage _ t rs 0 { root := .dir kids } (.dir kS) h]
+    simp only [run, exec, List.nil_append, List.reverse_nil, finishDel]
+    cases finishRen (.dir kS) (pendOf rs 0) with
+    | mk a b => cases b <;> rfl
+  · -- children first: reverse delta order, finished in the order of the new paths
+    have e : (toRenamed rs).reverse = toRenamed rs.reverse := by simp [toRenamed, List.map_reverse]
+    refine reach_core _ t kids rs rs.reverse (sortByNew (pendOf rs.reverse 0)) (fun _ => List.mem_reverse)
+      (perm_sortByNew _) ?_ hst hfi hsrc hstamp hnew
+    intro kS h
+    unfold uploadInc planInc
+    simp only [List.filter_nil, List.map_nil, List.flatMap_nil, List.nil_append, List.append_nil, e]
+    rw [run_append, run_stage _ t rs.reverse 0 { root := .dir kids } (.dir kS) h]
+    simp only [run, exec, List.nil_append, List.reverse_nil, finishDel]
+    cases finishRen (.dir kS) (sortByNew (pendOf rs.reverse 0)) with
+    | mk a b => cases b <;> rfl
 
 /-- a swap and a three-cycle at once satisfy the hypotheses -/
 example : let rs := [("a", "b"), ("b", "a"), ("x", "y"), ("y", "z"), ("z", "x")]
-    Independent (stageMoves rs 0) ∧ Independent (finishMoves rs 0) ∧
+    let rs' := stagingOrder { renames := .childrenFirst } rs
+    Independent (stageMoves rs' 0) ∧ Independent (finishMoves rs' 0) ∧
     ∀ r ∈ rs, r.2 ∈ rs.map (·.1) := by
   refine ⟨⟨by decide, by decide, by decide⟩, ⟨by decide, by decide, by decide⟩, by decide⟩
 
